@@ -27,7 +27,7 @@ const (
 )
 
 func newWorld(x *vs.Exec, hb int64) *sw.World {
-	return sw.New(x, sw.Opt{AllowPorts: sw.P(20000, 20003), UserConnTimeout: 5, HeartbeatTimeout: hb, TCPMuxPort: muxPort, HTTPPort: httpPort, HTTPSPort: httpsPort, SubDomainHost: "sub.example.org"})
+	return sw.New(x, sw.Opt{AllowPorts: sw.P(20000, 20003), MaxPortsPerClient: 8, UserConnTimeout: 5, HeartbeatTimeout: hb, TCPMuxPort: muxPort, HTTPPort: httpPort, HTTPSPort: httpsPort, SubDomainHost: "sub.example.org"})
 }
 
 type ptype struct {
@@ -281,6 +281,18 @@ func scPartial(kind string) func(x *vs.Exec) {
 			blocker = &msg.NewProxy{ProxyName: "blk", ProxyType: "http", CustomDomains: []string{"b.example.com"}}
 			victim = &msg.NewProxy{ProxyName: "v", ProxyType: "http", CustomDomains: []string{"a.example.com", "b.example.com"}, Group: "HG", GroupKey: "k"}
 			retry = &msg.NewProxy{ProxyName: "v", ProxyType: "http", CustomDomains: []string{"a.example.com"}, Group: "HG", GroupKey: "k"}
+		case "name-taken":
+			blocker = &msg.NewProxy{ProxyName: "v", ProxyType: "tcp", RemotePort: 20002}
+			victim = &msg.NewProxy{ProxyName: "v", ProxyType: "tcp", RemotePort: 20001}
+			retry = &msg.NewProxy{ProxyName: "v2", ProxyType: "tcp", RemotePort: 20001}
+		case "port-taken":
+			blocker = &msg.NewProxy{ProxyName: "blk", ProxyType: "tcp", RemotePort: 20001}
+			victim = &msg.NewProxy{ProxyName: "v", ProxyType: "tcp", RemotePort: 20001}
+			retry = &msg.NewProxy{ProxyName: "v", ProxyType: "tcp", RemotePort: 20002}
+		case "udp-port-taken":
+			blocker = &msg.NewProxy{ProxyName: "blk", ProxyType: "udp", RemotePort: 20001}
+			victim = &msg.NewProxy{ProxyName: "v", ProxyType: "udp", RemotePort: 20001}
+			retry = &msg.NewProxy{ProxyName: "v", ProxyType: "udp", RemotePort: 20002}
 		case "tcp-listen-fails", "tcpgroup-listen-fails", "udp-listen-fails":
 			typ, net := "tcp", "tcp"
 			if kind == "udp-listen-fails" {
@@ -423,7 +435,7 @@ func main() {
 	for _, t := range []string{"tcp", "http", "stcp"} {
 		runs = append(runs, run{"term/" + t + "/hbtimeout", drv.Pick(c, 1, 1)})
 	}
-	for _, k := range []string{"http-2nd-domain", "http-2nd-location", "https-2nd-domain", "tcpmux-2nd-domain", "httpgroup-2nd-domain", "tcp-listen-fails", "tcpgroup-listen-fails", "udp-listen-fails"} {
+	for _, k := range []string{"http-2nd-domain", "http-2nd-location", "https-2nd-domain", "tcpmux-2nd-domain", "httpgroup-2nd-domain", "tcp-listen-fails", "tcpgroup-listen-fails", "udp-listen-fails", "name-taken", "port-taken", "udp-port-taken"} {
 		runs = append(runs, run{"partial/" + k, drv.Pick(c, 1, 2)})
 	}
 	for _, k := range []string{"closenotify", "stats", "rwc", "rwcconn", "encryption", "compression"} {
